@@ -20,7 +20,7 @@ FILES = ["crates/parol/src/generators/user_trait_generator.rs",
          "crates/parol/src/transformation/canonicalization.rs",
          "crates/parol-macros/src/macros.rs"]
 
-REC_START_TEXT = ("FC23a the start symbol's user action is called once per APPLICATION of the start symbol, not once per parse: "
+REC_START_TEXT = ("F28 the start symbol's user action is called once per APPLICATION of the start symbol, not once per parse: "
                   "`%start S %% S: \"a\" [ S ];` on input `a a` calls `s` twice (first with the inner S); LALR(1) `S: S \"a\" | \"b\";` "
                   "on `b a` likewise (site user_trait_generator.rs::generate_user_action_call — every adapter function of a "
                   "non-terminal with a user action calls it)")
@@ -44,7 +44,7 @@ def grammar_key(case):
 
 
 def extra(ctx, state):
-    """(1) coverage figures; (2) the recursive-start witnesses of finding FC23a."""
+    """(1) coverage figures; (2) the recursive-start witnesses of finding F28."""
     cases = common.read_lines(ctx.path("cases.txt"))
     grams = {}
     for c in cases:
@@ -82,7 +82,7 @@ def extra(ctx, state):
         "partial": "the tie covers only the few grammars compiled per run (quick 6, thorough 40)",
     }
     if hits:
-        ctx.known.append(f"id=FC23a {REC_START_TEXT} (reproduced on {len(hits)} witness(es): oracle `{hits[0][1]}`; "
+        ctx.known.append(f"id=F28 {REC_START_TEXT} (reproduced on {len(hits)} witness(es): oracle `{hits[0][1]}`; "
                          f"theorem start_action_once_counterexample; the model agrees with the implementation)")
     if odd:
         c, r, m, o = odd[0]
@@ -103,7 +103,7 @@ SPEC = {
             "names, enum alternatives, LL(k) and LALR(1) incl. left recursion and an augmented start) plus random EBNF grammars "
             "whose alternatives start with their own guard terminal (so they are accepted), each with several sentences drawn "
             "from the grammar; one case = one (grammar, sentence); non-trivial = the expanded grammar has a clipped symbol or a "
-            "production attribute; the start symbol of every generated grammar is on no right-hand side (see finding FC23a)",
+            "production attribute; the start symbol of every generated grammar is on no right-hand side (see finding F28)",
     "assumptions": [
         "the Lean machine `run` of Model/Adapter.lean mirrors the generated adapter functions; agreement (all user-action calls, full AST shape) is observed only on the few grammars compiled per run",
         "user-defined types (`: Type`), %nt_type and minimize_boxed_types are out of scope; token identity is the byte offset of the token",
@@ -116,7 +116,7 @@ CLAIM = {
     "category": "proof",
     "text": "Lean theorems about a stack-machine model of the generated adapter (one rule per production derived from the production/symbol attributes as generate_stack_pops / generate_result_builder / generate_push_semantic / generate_stack_push and pop_item!/pop_and_reverse_item! do): for every expanded grammar satisfying the attribute discipline attrsWF and every derivation, running the adapter over the post-order action trace leaves exactly one AST for the start symbol, equal to the declarative AST of the derivation (adapter_eq_spec), whose flattening is the list of non-clipped tokens in input order (ast_flatten_eq_tokens, also stated for successful runs of the LL(k) parser model via ll_tree_actions), Option members are Some iff the OptionalSome production was applied (option_iff_occurred), a Vec member lists the values of the repetition's iterations in input order for LL (reversed once at the anchor) and LALR (repeat_in_order), and the start action is called exactly once when the start symbol is on no right-hand side (start_action_once; counterexample for a recursive start symbol proved). Tie: PARTIAL — per run only 6 (quick) / 40 (thorough) grammars are compiled with rustc and their real Debug dumps compared with the model and judged by the oracle.",
     "design_ref": "DESIGN.md §6 C23",
-    "note": "Trusted: Lean kernel; faithfulness of the hand-written adapter model as observed on the few compiled grammars; harness (crate writer, Debug-dump parser, numeric encoding of cfg.pr and of the real trace); rustc/cargo; orchestrator. New finding FC23a (recursive start symbol: start action called more than once) is reproduced on its witnesses on every run.",
+    "note": "Trusted: Lean kernel; faithfulness of the hand-written adapter model as observed on the few compiled grammars; harness (crate writer, Debug-dump parser, numeric encoding of cfg.pr and of the real trace); rustc/cargo; orchestrator. New finding F28 (recursive start symbol: start action called more than once) is reproduced on its witnesses on every run.",
     "technique": "Lean 4 proof over hand-written model + translation validation of generated code on compiled samples",
 }
 
